@@ -1,8 +1,9 @@
-(* FactsOK_C05.v — the registration order of the create / update / delete pipelines, re-extracted
-   from /repo's callbacks/callbacks.go on every run (Facts.v), satisfies what the C05 model
-   assumes of a pipeline (C05_Model.run_pipe): BeginTransaction runs first,
-   CommitOrRollbackTransaction last, both under the same Match and nothing else under a Match;
-   every Register statement on these processors was understood. *)
+(* FactsOK_C05.v — the create / update / delete pipelines of the RUNNING gorm (Facts.v is
+   regenerated on every run by harness/facts/c05.go, linked against the tree under test: callback
+   list by reflection, execution order by probe callbacks) satisfy what the C05 model assumes of
+   a pipeline (C05_Model.run_pipe): BeginTransaction runs first, CommitOrRollbackTransaction last,
+   both under the same Match and nothing else under a Match; the callbacks are executed in their
+   registration order; every callback entry was understood. *)
 From Verif Require Import Base.
 From Gen Require Import Facts.
 Open Scope string_scope.
@@ -29,6 +30,12 @@ Proof. vm_compute. reflexivity. Qed.
 Lemma update_bracketed : bracketed c05_update_order = true.
 Proof. vm_compute. reflexivity. Qed.
 Lemma delete_bracketed : bracketed c05_delete_order = true.
+Proof. vm_compute. reflexivity. Qed.
+Lemma create_executed : list_eqb str_eqb c05_create_executed (map fst c05_create_order) = true.
+Proof. vm_compute. reflexivity. Qed.
+Lemma update_executed : list_eqb str_eqb c05_update_executed (map fst c05_update_order) = true.
+Proof. vm_compute. reflexivity. Qed.
+Lemma delete_executed : list_eqb str_eqb c05_delete_executed (map fst c05_delete_order) = true.
 Proof. vm_compute. reflexivity. Qed.
 Lemma nothing_unknown : c05_unknown = [].
 Proof. vm_compute. reflexivity. Qed.
